@@ -554,6 +554,7 @@ func (e *explorer) provOpenShard(kind, prov int, paths []string) {
 						continue
 					}
 					st.opensOK++
+					st.opensExt++
 					isDir := errs[1] == 0 && w.bufFiletype() == wasip1.FILETYPE_DIRECTORY
 					if isDir {
 						st.dirOpens++
@@ -699,7 +700,7 @@ func main() {
 		words += t.words
 		nontriv += t.nontriv
 		reads += t.reads
-		opensOK += t.opensOK
+		opensOK += t.opensExt
 		perKind[kindNames[k]] = map[string]int64{"words": t.words, "steps_checked": t.steps, "nontrivial_words": t.nontriv,
 			"successful_path_open_classes": t.opensOK, "extended_to_sequences": t.opensExt, "of_which_directories": t.dirOpens, "read_through_checks": t.reads, "tree_recreations": t.resets, "full_snapshots": t.fullSnaps}
 	}
